@@ -122,9 +122,10 @@ def starPairs : List Node → List (Node × Node)
 def cyclePairs (ns : List Node) : List (Node × Node) :=
   ns.zip (ns.drop 1 ++ ns.take 1)
 
-def Graph.addPath (g : Graph) (ns : List Node) (t : Option Int) := g.addInteractionsFrom (pathPairs ns) t none
-def Graph.addStar (g : Graph) (ns : List Node) (t : Option Int) := g.addInteractionsFrom (starPairs ns) t none
-def Graph.addCycle (g : Graph) (ns : List Node) (t : Option Int) := g.addInteractionsFrom (cyclePairs ns) t none
+/- the methods take `(nodes, t)`; the module-level wrappers `dn.add_path(G, nodes, t, **attr)` forward `e=` through `attr` -/
+def Graph.addPath (g : Graph) (ns : List Node) (t : Option Int) (e : Option Int := none) := g.addInteractionsFrom (pathPairs ns) t e
+def Graph.addStar (g : Graph) (ns : List Node) (t : Option Int) (e : Option Int := none) := g.addInteractionsFrom (starPairs ns) t e
+def Graph.addCycle (g : Graph) (ns : List Node) (t : Option Int) (e : Option Int := none) := g.addInteractionsFrom (cyclePairs ns) t e
 
 /-- `add_node(n)` -/
 def Graph.addNode (g : Graph) (n : Node) : Graph := { g with nodes := ensureNode g.nodes n }
